@@ -347,3 +347,35 @@ Inductive ldc_form := LDC (idx : Z) | LDC_W (idx : Z) | LDC2_W (idx : Z).
 Definition ldc_choose (is_long_or_double : bool) (index : Z) : ldc_form :=
   if is_long_or_double then LDC2_W index
   else if index <=? 255 then LDC index else LDC_W index.
+
+(* ======================= framing: write_attribute, write_usize_as_uN ======================= *)
+(* u16::try_from(usize) / u32::try_from(usize) then to_be_bytes *)
+Definition write_usize_as_u16 (n : Z) : res (list N) := if 65535 <? n then Err else Ok (be16 n).
+Definition write_usize_as_u32 (n : Z) : res (list N) := if 4294967295 <? n then Err else Ok (be32 n).
+(* write_attribute: the body is buffered, then name index, measured length, body *)
+Definition write_attribute (name_index : Z) (body : list N) : res (list N) :=
+  match write_usize_as_u32 (zlen body) with
+  | Ok l => Ok (be16 name_index ++ l ++ body)
+  | Err => Err
+  end.
+(* write_slice with a u16 count: the count, then the elements *)
+Definition write_slice16 (elems : list (list N)) : res (list N) :=
+  match write_usize_as_u16 (zlen elems) with
+  | Ok l => Ok (l ++ concat elems)
+  | Err => Err
+  end.
+(* `writer.write_u32(code_length); writer.write_u8_slice(&w)` *)
+Definition frame_code (code : list N) : list N := be32 (zlen code) ++ code.
+
+(* ======================= stack map frames ======================= *)
+(* write_code pushes (opcode_pos, frame) for every instruction that carries a frame and then
+   writes nothing: `if !frames.is_empty() { // TODO: write stack map table }`.
+   A frame is abstracted to an identifier. *)
+Fixpoint tree_frames (fs : list (option N)) (pos : list Z) : list (Z * N) :=
+  match fs, pos with
+  | Some f :: fs', p :: pos' => (p, f) :: tree_frames fs' pos'
+  | None :: fs', _ :: pos' => tree_frames fs' pos'
+  | _, _ => []
+  end.
+Definition written_frames (fs : list (option N)) (pos : list Z) : list (Z * N) := [].
+Definition has_frames (fs : list (option N)) : bool := existsb (fun o => match o with Some _ => true | None => false end) fs.
